@@ -1,5 +1,5 @@
 (* C07 - property theorems only. *)
-From V Require Import Lib.Base Lib.Cbor Lib.CborParse Lib.CborSpan C07.Model C07.Basics C07.Walkers C07.Top C07.Components.
+From V Require Import Lib.Base Lib.Cbor Lib.CborParse Lib.CborSpan C07.Model C07.Basics C07.Walkers C07.Top C07.Components C07.Byron.
 Local Open Scope nat_scope.
 
 (* the bytes a reported range selects *)
@@ -109,6 +109,62 @@ Proof.
   exists x. split; [apply range_is_slice; exact R|exact Hin].
 Qed.
 Print Assumptions C07_block_witness_components_exact.
+
+(* C07_byron_offsets_exact: Byron main blocks
+   [header, [[ [tx_body, tx_witnesses] .. ], ssc, dlg, upd], extra] with ANY
+   header form on every array: both walkers recognise the layout, report one
+   location per transaction pair, body / witness ranges select exactly
+   enc tx_body / enc tx_witnesses, no metadata and no witness components are
+   reported, and for a body [inputs, [out ..], ..] the output ranges are as
+   many as the outputs and select exactly each enc out *)
+Theorem C07_byron_offsets_exact : forall streaming b,
+  wf b -> size_ok b -> byron_like b = true ->
+  exists f0 h f1 fp pairs s1 s2 s3 extra txs,
+    b = Arr f0 [h; Arr f1 [Arr fp pairs; s1; s2; s3]; extra] /\
+    extract_gen false streaming (enc b) = Done txs /\ length txs = length pairs /\
+    forall i t, nth_error txs i = Some t ->
+      exists fq body w, nth_error pairs i = Some (Arr fq [body; w]) /\
+        sel (enc b) (l_body t) = enc body /\ sel (enc b) (l_wit t) = enc w /\
+        fst (l_body t) + snd (l_body t) <= length (enc b) /\ fst (l_wit t) + snd (l_wit t) <= length (enc b) /\
+        l_meta t = zero_range /\ l_comps t = [] /\
+        match byron_body_outputs body with
+        | Some (_, _, outs) =>
+            length (l_outs t) = length outs /\
+            forall m o, nth_error outs m = Some o -> exists r, nth_error (l_outs t) m = Some r /\
+              sel (enc b) r = enc o /\ fst r + snd r <= length (enc b)
+        | None => True
+        end.
+Proof.
+  intros s b Hw Hs Hl.
+  destruct (extract_byron s b Hw Hs Hl) as (f0 & h & f1 & fp & pairs & s1 & s2 & s3 & extra & txs & E & Ex & Len & H).
+  exists f0, h, f1, fp, pairs, s1, s2, s3, extra, txs. repeat split; auto.
+  intros i t Ht. destruct (H i t Ht) as (fq & body & w & Hp & Rb & Rw & Hm & Hc & Ho).
+  exists fq, body, w. repeat split; auto; try (apply range_is_slice; assumption); try (eapply range_is_in; eassumption).
+  destruct (byron_body_outputs body) as [[[o fo] outs]|]; [|exact I]. destruct Ho as [Hlen Ho]. split; [exact Hlen|].
+  intros m x Hx. destruct (Ho m x Hx) as (r & Hr & R). exists r. split; [exact Hr|].
+  split; [apply range_is_slice; exact R|eapply range_is_in; exact R].
+Qed.
+Print Assumptions C07_byron_offsets_exact.
+
+(* C07_ebb_nothing_reported: a Byron epoch boundary block
+   [header, [stakeholder id ..], extra] (accepted by the era decoder, no
+   transactions) yields no locations and no error, whatever the number of ids
+   and of `extra` elements (with fixes/C07-ebb-no-transactions.patch; before it
+   such a block was read as a Shelley layout: an error, or phantom locations) *)
+Theorem C07_ebb_nothing_reported : forall streaming b,
+  wf b -> ebb_like b = true -> extract_gen false streaming (enc b) = Done [].
+Proof. exact extract_ebb. Qed.
+Print Assumptions C07_ebb_nothing_reported.
+
+(* non-vacuity for the component theorem: a Conway-style witness set with tag-258 sets *)
+Example C07_components_nonvacuous :
+  let w := Map (Some Fimm) [(UInt Fimm 1, Tag F2 258 (Arr (Some F1) [Arr (Some Fimm) [UInt Fimm 0; BStr Fimm [1%N; 2%N]]]));
+                            (UInt Fimm 4, Tag F2 258 (Arr None [UInt F1 7; UInt Fimm 8]));
+                            (UInt Fimm 5, Map (Some Fimm) [(Arr (Some Fimm) [UInt Fimm 0; UInt Fimm 3], Arr (Some Fimm) [UInt F2 9; Arr (Some Fimm) []])])] in
+  wf w /\ wit_shape w = true /\
+  map (fun c => sel (enc w) (comp_range c)) (witness_components (enc w) 0) =
+    [enc (Arr (Some Fimm) [UInt Fimm 0; BStr Fimm [1%N; 2%N]]); enc (UInt F1 7); enc (UInt Fimm 8); enc (UInt F2 9)].
+Proof. split; [vm_compute; repeat split; repeat constructor|]. split; vm_compute; reflexivity. Qed.
 
 (* ---- the pinned tree: header size assumed from the element count ---- *)
 (* a one-transaction block whose outer array header is 0x98 0x05 *)
